@@ -3,6 +3,9 @@ package props
 import (
 	"fmt"
 
+	"github.com/cybergarage/go-redis/vrt"
+	"verif/seq"
+
 	"github.com/cybergarage/go-redis/redis/proto"
 	"verif/resp"
 )
@@ -95,8 +98,13 @@ func fromProto(m *proto.Message, depth int) (v resp.Value, absent bool, err erro
 	return resp.Value{}, false, fmt.Errorf("unknown message type %d", m.Type)
 }
 
-// guard runs f and converts a panic into a string.
+func init() {
+	seq.OnTransport = vrt.ResetTicks
+}
+
+// guard runs f (with a fresh loop-iteration budget) and converts a panic into a string.
 func guard(f func()) (panicked string) {
+	vrt.ResetTicks()
 	defer func() {
 		if r := recover(); r != nil {
 			panicked = fmt.Sprint(r)
